@@ -141,8 +141,9 @@ class MuxWorld(World):
         hwseed = config["hwseed"]
         made = []
         mm, placed, skipped = build_map(
-            config, lambda m_: made.append(hw.construct(csr.Multiplexer, m_,
-                                                        shadow_overlaps=config["ov"])))
+            config, lambda m_: made.append(hw.must_accept(
+                "C04" if "C04" in props else "C05", f"csr.Multiplexer(shadow_overlaps={config['ov']})",
+                csr.Multiplexer, m_, shadow_overlaps=config["ov"])))
         dut = made[0]
         duts = [(dut, placed)]
         if config.get("late"):
